@@ -36,6 +36,7 @@ type Config struct {
 	EfdHigh   bool     `json:"efdhigh,omitempty"` // eventfd counter starts near overflow
 	Listeners int      `json:"listeners,omitempty"`
 	MaxSteps  int      `json:"maxsteps,omitempty"`
+	Serial    bool     `json:"serial,omitempty"` // peers connect one at a time, only when nothing is in transit (exact least-connections oracle)
 }
 
 // PeerOp is one step of a harness-driven remote peer.
@@ -78,6 +79,7 @@ type ConnPlan struct {
 	Traffic   []TStep  `json:"traffic,omitempty"`
 	CloseAct  int      `json:"close_act,omitempty"` // action returned by OnClose
 	Start     int      `json:"start,omitempty"`     // decisions to wait before connecting
+	AddrOf    int      `json:"addr_of,omitempty"`   // 1+index of an earlier peer whose source address this peer re-uses
 	Dial      bool     `json:"dial,omitempty"`      // the connection is created by Engine.Register / Enroll from a user task
 }
 
